@@ -114,6 +114,9 @@ def validate(ctx, comp, sc, tso, runs, workdir, tag):
 
 
 def report_failures(ctx, comp, fails):
+    setup = [f for f in fails if f["rc"] == 2 and "VRT-FAIL" not in f["stderr"]]
+    if setup:       # exit status 2 = the driver could not even start (missing program file, too many threads): machinery error, never a verdict
+        raise RuntimeError("driver setup error (scenario %s seed %d): %s" % (setup[0]["scenario"], setup[0]["seed"], setup[0]["stderr"][-300:]))
     for f in fails[:max(0, MAXV - len(ctx.violations))]:
         d = ctx.viol_dir()
         if os.path.exists(f["trace"]):
